@@ -47,7 +47,7 @@ class Obl:
     def __init__(self, name, harness, units=(), stubs=('log_stub.c',), defines=(), seams=None,
                  unwind=None, unwindset=(), flags=(), timeout=300, ladder=None, desc='',
                  bound='', assumes=(), tiers=('quick', 'thorough'), function='harness',
-                 mem_gb=12, backend=None, expect_known=None, weight=1, native_defs=(), objbits=None, unwind_text=()):
+                 mem_gb=12, backend=None, expect_known=None, weight=1, native_defs=(), objbits=None, unwind_text=(), typed_calloc=False):
         self.name = name
         self.harness = harness            # file under /verif/harness
         self.units = list(units)          # files under /repo/src (the real code that is encoded)
@@ -71,6 +71,7 @@ class Obl:
         self.weight = weight if weight != 1 or not isinstance(backend, (list, tuple)) else len(backend)
         self.native_defs = list(native_defs)
         self.objbits = objbits
+        self.typed_calloc = typed_calloc   # CBMC build only: calloc(1, s) -> zeroed malloc(s), so that CBMC types the object
         self.units_note = []
         self.unwind_text = list(unwind_text)   # [(function, regex on the loop's source line, bound)]: resolved to loop ids after the build
 
@@ -89,10 +90,15 @@ def build_goto(obl, wd, extra_defs):
     os.makedirs(wd, exist_ok=True)
     objs = []
     defs = BASE_DEFS + ['-D' + d for d in obl.defines] + ['-D' + d for d in extra_defs]
+    udefs = list(defs)
+    if obl.typed_calloc:
+        # every calloc in jls is calloc(1, size); CBMC models calloc as an untyped byte array (field reads through it made symex
+        # ~100x slower), while malloc(sizeof(T)) yields a typed object.  Same semantics: zero-filled allocation of `size` bytes.
+        udefs += ['-include', os.path.join(HARNESS, 'typed_calloc.h')]
     for u in obl.units:
         src = os.path.join(REPO, 'src', u)
         out = os.path.join(wd, u.replace('/', '_') + '.gb')
-        rc, o = sh(['goto-cc', '-c', src, '-o', out] + INCLUDES + defs + _unit_defs(src))
+        rc, o = sh(['goto-cc', '-c', src, '-o', out] + INCLUDES + udefs + _unit_defs(src))
         if rc:
             raise RuntimeError('goto-cc failed for %s:\n%s' % (u, o))
         for fn in obl.seams.get(u, []):
